@@ -288,6 +288,8 @@ impl Storage {
                 let storage = self.clone();
                 io_threadpool.execute(move || {
                     storage.write_subpartitions(&partition, subpartitions, false);
+                    #[cfg(feature = "verif")]
+                    crate::verif::sync_point(&format!("flush:persist:files:{}", partition.tablename));
                     let mut meta_store = storage.meta_store.write().unwrap();
                     meta_store.insert_partition(partition);
                     tx.send(()).unwrap();
@@ -306,6 +308,8 @@ impl Storage {
                 let span_write_subpartitions = tracer.start_span("write_subpartitions");
                 self.write_subpartitions(&partition, subpartition_cols, false);
                 tracer.end_span(span_write_subpartitions);
+                #[cfg(feature = "verif")]
+                crate::verif::sync_point(&format!("flush:persist:files:{}", partition.tablename));
 
                 let span_lock_meta_store = tracer.start_span("lock_meta_store");
                 let mut meta_store = self.meta_store.write().unwrap();
@@ -390,6 +394,8 @@ impl Storage {
             subpartitions_by_last_column,
         };
         self.write_subpartitions(&partition, subpartitions, true);
+        #[cfg(feature = "verif")]
+        crate::verif::sync_point(&format!("flush:compact:files:{}", table));
 
         // Update metastore
         let mut meta_store = self.meta_store.write().unwrap();
